@@ -39,4 +39,39 @@ theorem visible_complete (fs : Fs) (p : String) (d : Bytes) (c : Option Bytes)
   have : k = d.length := Nat.le_antisymm hk2 hk1
   rw [hc, this, List.take_length]
 
+/-- before the rename the final path is untouched -/
+theorem crash_final_before (fs : Fs) (tmp final : String) (hne : tmp ≠ final) (enc : Bytes) (i j : Nat) (hi : i < 4) :
+    (crashState fs tmp final enc i j) final = fs final := by
+  have hne' : final ≠ tmp := fun h => hne h.symm
+  unfold crashState saveOps
+  rcases i with _ | _ | _ | _ | i
+  · simp [run]
+  · simp only [List.take, run, List.foldl_cons, List.foldl_nil, if_true]
+    rw [step_write_other _ _ _ _ hne', step_create_other _ _ _ hne']
+  · have h2 : ¬ (0 + 1 + 1 = 1) := by decide
+    simp only [List.take, run, List.foldl_cons, List.foldl_nil, h2, if_false]
+    rw [step_write_other _ _ _ _ hne', step_create_other _ _ _ hne']
+  · have h2 : ¬ (0 + 1 + 1 + 1 = 1) := by decide
+    simp only [List.take, run, List.foldl_cons, List.foldl_nil, h2, if_false]
+    rw [step_sync_other _ _ _ hne', step_write_other _ _ _ _ hne', step_create_other _ _ _ hne']
+  · omega
+
+/-- once the rename is done the final path holds the complete, durable new encoding — whatever the temp path held
+    before the save began -/
+theorem crash_final_after (fs : Fs) (tmp final : String) (hne : tmp ≠ final) (enc : Bytes) (i j : Nat) (hi : 4 ≤ i) :
+    (crashState fs tmp final enc i j) final = some { data := enc, durable := enc.length } := by
+  have hne' : final ≠ tmp := fun h => hne h.symm
+  unfold crashState saveOps
+  have h2 : ¬ (i = 1) := by omega
+  simp only [h2, if_false]
+  have ht : List.take i [Op.create tmp, Op.write tmp enc, Op.sync tmp, Op.rename tmp final] =
+      [Op.create tmp, Op.write tmp enc, Op.sync tmp, Op.rename tmp final] := by
+    apply List.take_of_length_le; simpa using hi
+  rw [ht]
+  simp only [run, List.foldl_cons, List.foldl_nil]
+  have hs := tmp_after_sync fs tmp enc
+  generalize step (step (step fs (.create tmp)) (.write tmp enc)) (.sync tmp) = s3 at hs ⊢
+  simp only [step, hs]
+  rw [Fs.set_other _ _ _ _ hne', Fs.set_same]
+
 end Shutter.SaveFile
